@@ -136,7 +136,11 @@ def run(chk) -> None:
                 for config, explicit, tg in (("base", None, targets), ("overrides", None, targets),
                                              ("overrides", "empty.yaml", small), ("base", "empty.json", small),
                                              ("overrides", "alt.yaml", small), ("base", "ignores.yaml", small)):
-                    if quick and explicit and (len(jobs) + off) % 3 and explicit != "ignores.yaml":
+                    # (always kept: an explicit EMPTY file against a project file with per-language thresholds, for the
+                    # commands whose verdicts those thresholds change)
+                    keep = explicit and explicit.startswith("empty") and config == "overrides" and off == offsets[0] \
+                        and cmd in ("nesting", "srp", "magic-numbers")
+                    if quick and explicit and (len(jobs) + off) % 3 and explicit != "ignores.yaml" and not keep:
                         continue
                     if quick and explicit == "ignores.yaml" and off != offsets[0]:
                         continue
